@@ -31,6 +31,10 @@ def cases(tier, seed, PROP):
         # every record in it must still decode
         for k in range(30 if tier == 'quick' else 300):
             yield {'stratum': 'non-ascii-if-accepted', 'index': k, 'kind': 'nonascii'}
+    if PROP in ('C04', 'C09'):
+        # forms of the set name: none, empty text, text; and a set given (another) name after its objects were added
+        for k in range(40 if tier == 'quick' else 600):
+            yield {'stratum': 'set-name-forms', 'index': k, 'kind': 'setnames'}
     if PROP == 'C05':
         # "at creation or later": values re-assigned after a first write, incl. values of another kind (text <-> number <->
         # reference <-> date-time) -- the second file must carry what is assigned now
@@ -72,6 +76,25 @@ def build_spec(case, PROP, r):
             sp['ops'].append({'op': 'comment', 'name': 'CM-NA', 'attrs': {'text': ['ascii', txt]}})
         else:
             sp['ops'].append({'op': 'zone', 'name': 'Z-NA', 'set_name': 'SET-' + txt, 'attrs': {}})
+        return sp
+    if k == 'setnames':
+        sp = metagen.meta_spec(r, avoid=avoid, n_objects=r.choice([0, 3]), later_p=0.0)
+        c = metagen.Ctx(r, sp, avoid=avoid)
+        made = []
+        for t in r.sample(['zone', 'equipment', 'long_name', 'comment', 'message', 'axis', 'well_reference_point', 'no_format'], 3):
+            forms = r.sample(['', None, 'NAMED-A', 'NAMED-B'], r.choice([1, 2, 3, 4]))
+            for j in range(r.choice([1, 2, 4])):
+                i = metagen.make_object(c, t, p=0.3)
+                op = sp['ops'][i]
+                op['name'] = f'SN-{t}-{j}'
+                op.pop('set_name', None)
+                f = r.choice(forms)
+                if f is not None:
+                    op['set_name'] = f
+                made.append(i)
+        for i in r.sample(made, r.choice([0, 1, 2])):
+            op = sp['ops'][i]
+            sp['ops'].append({'op': 'rename_set', 'target': i, 'value': f'RENAMED-{op["op"]}-{op.get("set_name") or "UNNAMED"}'})
         return sp
     if k == 'rewrite':
         from vf.checks import c14
